@@ -39,7 +39,7 @@ def harnesses(tier):
          for uk in (0, 1, 2) for (v1, v2) in ((1, 1), (0, 1), (1, 0), (2, 2))] + linetype(tier) + [
         dict(name='c11_strip_value_' + tn, src='c11/stripvalue.c', defs=dict(TERM=t, VL=3 if tier == 'quick' else 4, DS_CAP=16),
              units=[dict(src='repo:mmd.c', cflags=['-include', 'vh_libc.h']), dict(src='repo:writer.c', cflags=['-include', 'vh_libc.h']), 'repo:token.c', 'repo:stack.c', 'repo:object_pool.c', 'repo:char.c', 'common/ds_model.c'],
-             unwind=12, unwindset=['label_from_string.0:4', 'label_from_string.1:4'], timeout=900, mem_gb=6, functional=True, pool_off=True, native_exclude=['scanners.c'],
+             unwind=12, unwindset=['label_from_string.0:4', 'label_from_string.1:4'], timeout=900, mem_gb=6, functional=True, pool_off=True,
              bounds='value of %d arbitrary bytes (no line break, no backslash, already trimmed, single inner spaces); line followed by: %s' % (3 if tier == 'quick' else 4, tn.replace('_', ' ')),
              desc='strip_line_tokens_from_metadata + meta_set_value: stored value == source value, whatever follows the line')
         for t, tn in enumerate(['eof_without_newline', 'newline_then_eof', 'blank_line', 'next_key', 'crlf_then_eof'])]
